@@ -175,9 +175,9 @@ def _corpus_body(rng, k):
     fs = corpus.files()
     f = fs[k % len(fs)]
     name, seqs = corpus.pipeline_piece(f)
-    d = max(s.get_sequence_duration() for s in seqs)
+    d = max(corpus.duration(s) for s in seqs)
     cut = rng.randrange(192, max(193, min(d, 3000)))
-    seqs = [s.split([cut])[0] if s.get_sequence_duration() > cut else s for s in seqs]
+    seqs = [s.split([cut])[0] if corpus.duration(s) > cut else s for s in seqs]
     tb = Sequence.sequences_split_bars(seqs, 0)      # the documented pipeline: cut fragments are re-quantised
     nb = len(tb[0])
     cfg = tc.rand_cfg(rng, i=(k // len(fs)) % 16)
